@@ -4,6 +4,7 @@ import (
 	"bytes"
 	"encoding/binary"
 	"fmt"
+	"strings"
 	"testing"
 	"time"
 
@@ -61,9 +62,16 @@ func runCaseInner(c Case) vlib.Result {
 	u.MessageLengthLimit = 0
 	u.EnableCompression(c.Compression)
 	var got []delivered
-	u.OnMessage(func(_ *websocket.Conn, mt websocket.MessageType, data []byte) {
-		got = append(got, delivered{int(mt), append([]byte(nil), data...)})
-	})
+	if c.Handlers != "dataframe" {
+		u.OnMessage(func(_ *websocket.Conn, mt websocket.MessageType, data []byte) {
+			got = append(got, delivered{int(mt), append([]byte(nil), data...)})
+		})
+	}
+	dataFrames := 0
+	if c.Handlers != "" {
+		u.OnDataFrame(func(_ *websocket.Conn, mt websocket.MessageType, fin bool, data []byte) { dataFrames++ })
+		res.Classes = append(res.Classes, "handlers="+c.Handlers)
+	}
 	type closeCall struct {
 		code int
 		text string
@@ -134,7 +142,20 @@ func runCaseInner(c Case) vlib.Result {
 		}
 	}
 
+	frameOnly := c.Handlers == "dataframe"
+	if frameOnly && m.Failed {
+		switch {
+		case strings.HasPrefix(m.FailReason, "text message is not valid UTF-8"), strings.HasPrefix(m.FailReason, "payload does not inflate"),
+			strings.Contains(m.FailReason, "larger than the limit"):
+			// message-level rules: nobody assembles a message in this configuration
+			res.Classes = append(res.Classes, "outcome=message-level offence with frame handler only (not asserted)")
+			return res
+		}
+	}
 	cmpDelivered := func(prefixOnly bool) error {
+		if frameOnly {
+			return nil
+		}
 		n := len(m.Delivered)
 		if len(got) > n {
 			return fmt.Errorf("library delivered %d messages, the automaton only %d: extra message type %d payload %s (a message at or after the offending frame)", len(got), n, got[n].op, vlib.Preview(got[n].payload, 60))
